@@ -158,6 +158,8 @@ def base_field_src(fam, f, variant):
         return "Bits(%s)" % ", ".join(args)
     if t == "ref":
         cls = "%s_%s" % (f["decl"], variant)
+        if "inst_mut" in f:
+            return "Ref(%s)" % f["_proto_var"]       # bound by class_src before the class statement
         if "inst" in f:
             return "Ref(%s(%s))" % (cls, ", ".join("%s=%r" % kv for kv in sorted(f["inst"].items())))
         return "Ref(%s)" % cls
@@ -170,6 +172,8 @@ def base_field_src(fam, f, variant):
                 osrc = base_field_src(fam, o, variant)
             opts.append("%s: %s" % (int(k), osrc))
         body = "{%s}" % ", ".join(opts)
+        if f.get("_table_var"):
+            body = f["_table_var"]                    # a table object shared with another selector (class_src)
         d = sel_default_src(fam, f, variant)
         if f["form"] == "chooses":
             return "Ref(%s.chooses(%s), default=%s)" % (f["key"], body, d)
@@ -259,17 +263,51 @@ class PlainDescriptor:
 """
 
 
+def table_src(fam, f, variant):
+    opts = []
+    for k, o in f["options"].items():
+        opts.append("%s: %s" % (int(k), ("%s_%s()" % (o["decl"], variant)) if o["t"] == "ref" else base_field_src(fam, o, variant)))
+    return "{%s}" % ", ".join(opts)
+
+
 def class_src(fam, decl, variant, options):
-    lines = ["class %s_%s(Packet):" % (decl["name"], variant)]
+    pre, post = [], []
+    tables = {}
+    for f in decl["fields"]:
+        f.pop("_proto_var", None)
+        f.pop("_table_var", None)
+        if f["t"] == "ref" and "inst_mut" in f:
+            # prototype object kept by the user and changed after the class statement
+            var = "_proto_%s_%s_%s" % (decl["name"], variant, f["name"])
+            f["_proto_var"] = var
+            pre.append("%s = %s_%s(%s)" % (var, f["decl"], variant, ", ".join("%s=%r" % kv for kv in sorted(f["inst"].items()))))
+            for k, v in sorted(f["inst_mut"].items()):
+                post.append("%s.%s = %r" % (var, k, v))
+        if f["t"] == "sel" and "share" in f:
+            var = "_table_%s_%s_%s" % (decl["name"], variant, f["share"])
+            if var not in tables:
+                tables[var] = True
+                pre.append("%s = %s" % (var, table_src(fam, f, variant)))
+            f["_table_var"] = var
+    try:
+        return _class_src(fam, decl, variant, options, pre, post)
+    finally:
+        for f in decl["fields"]:
+            f.pop("_proto_var", None)
+            f.pop("_table_var", None)
+
+
+def _class_src(fam, decl, variant, options, pre, post):
+    lines = list(pre) + ["class %s_%s(Packet):" % (decl["name"], variant)]
     conf = dict(decl["opts"])
     conf.update(options)
     if conf:
         lines.append("    __bisturi__ = %r" % (conf,))
     for f in decl["fields"]:
         lines.append("    %s = %s" % (f["name"], field_src(fam, f, variant)))
-    if len(lines) == 1:
+    if lines[-1].startswith("class "):
         lines.append("    pass")
-    return "\n".join(lines) + "\n"
+    return "\n".join(lines + list(post)) + "\n"
 
 
 def family_src(fam, variants, local=False):
